@@ -139,8 +139,8 @@ Definition is_flag_char (c : N) : bool :=
 
 (* \(\?[-misU]+<close> at the head of s: length of the match *)
 Definition flag_group_here (close : N) (s : str) : option nat :=
-  match s with
-  | 40 :: 63 :: r =>
+  if prefixb $"(?" s then
+    let r := skipn 2 s in
     let fl := take_while is_flag_char r in
     match fl with
     | [] => None
@@ -150,8 +150,7 @@ Definition flag_group_here (close : N) (s : str) : option nat :=
       | [] => None
       end
     end
-  | _ => None
-  end.
+  else None.
 
 (* ReplaceAllLiteralString(s, "") for \(\?[-misU]+\) : leftmost, non-overlapping *)
 Fixpoint strip_flag_starts_aux (fuel : nat) (s : str) : str :=
